@@ -377,15 +377,18 @@ def check_bad_sig(case, ctx):
     bad = case["bad"]
     ctx.label("bad:" + bad)
     ctx.nontrivial()
-    s = case["subset"][0]
     p = PSBT.parse(BytesIO(base))
-    require(p.sign(w.roots[s]) is True, "badsig/sign")
+    # every signer of the subset signs: the invalid signature may be any of several partial signatures
+    for s in (case["subset"][:1] if bad == "swap_sigs" else case["subset"]):  # swap needs a key without one
+        require(p.sign(w.roots[s]) is True, "badsig/sign")
     blob = p.serialize()
     m = psbtmap.parse(blob)
     j = case["bad_pos"] % len(m["inputs"])
     entries = [(i, k, v) for i, (k, v) in enumerate(m["inputs"][j]) if k[:1] == b"\x02"]
     require(len(entries) >= 1, "badsig/no_partial_sig_in_signed_psbt")
-    i, k, v = entries[0]
+    which = (case["bad_pos"] // 3) % len(entries)
+    ctx.label("invalid_signature_is_the_first" if which == 0 else "invalid_signature_is_a_later_one")
+    i, k, v = entries[which]
     z = w.digest(j)
     foreign = 0x1234567 + case["bad_pos"]
     if bad == "foreign_key_sig":
@@ -413,9 +416,10 @@ def check_bad_sig(case, ctx):
         if len(entries) < 2 and w.n < 2:
             raise Discard("single key")
         # attach the signature to a different public key of the script
-        others = [sec for sec in w.inputs[j]["secs"] if sec != k[1:]]
+        taken = {kk for _, kk, _ in entries}
+        others = [sec for sec in w.inputs[j]["secs"] if sec != k[1:] and b"\x02" + sec not in taken]
         if not others:
-            raise Discard("single key")
+            raise Discard("no key of the script is without a signature")
         m["inputs"][j][i] = (b"\x02" + others[0], v)
         v2 = None
     else:
@@ -494,7 +498,7 @@ SUBS = [
                                                  "combine_pair"],
         nontrivial_rule="n >= 2 with at least two signers, or injected unknown key-value pairs"),
     Sub("bad_partial_sig_rejected", check_bad_sig, strategy=lambda tier: flow_cases(),
-        budget={"quick": 60, "thorough": 5000},
+        budget={"quick": 80, "thorough": 5000},
         required=["bad:" + b for b in ("foreign_key_sig", "other_digest_sig", "flip_der_byte", "swap_sigs",
-                                       "truncate_sig")]),
+                                       "truncate_sig")] + ["invalid_signature_is_a_later_one"]),
 ]
